@@ -35,6 +35,10 @@ def gen_table(rng):
     au = u.rad if rng.random() < 0.55 else u.deg
     Ku = u.km / u.s if rng.random() < 0.6 else u.m / u.s
     P = 10 ** rng.uniform(-1, 3.5, n) * (1 + np.arange(n) * 1e-6)
+    if n >= 2 and rng.random() < 0.2:
+        # every period repeated 2-3 times with other linear parameters: what rejection_sample(n_linear_samples > 1) returns
+        rep = int(rng.choice([2, 3]))
+        P = np.repeat(P[: max(1, n // rep) + 1], rep)[:n]
     s["P"] = (P * u.day).to(Pu)
     mixed = False
     s["e"] = rng.uniform(0, 0.9, n)
